@@ -468,6 +468,18 @@ SPECS += [
          props=["C07"]),
 ]
 
+# the same function once more, owned by C18 (the mask rules of the connect phase), with theorems stated on it directly
+SPECS += [
+    dict(lean="masks_compatible_rules", path="data/tools/mask.py", qual="masks_compatible", group="MaskRules",
+         params={"this": MASK, "incoming": MASK, "incoming_donwstream": "Bool", "this_grid": "Opt[Obj]", "incoming_grid": "Opt[Obj]"},
+         extra_params={"masksEqual": MASKEQ}, ret="Bool",
+         consts={"Mask.FLEX": ("(-1 : Int)", "Int"), "Mask.NONE": ("(-2 : Int)", "Int")},
+         conds={"mask_specified(downstream)": "(Py.maskSpecified downstream = true)",
+                "mask_specified(upstream)": "(Py.maskSpecified upstream = true)"},
+         calls={"masks_equal": {"lean": "masksEqual", "args": [0, 1, 2, 3], "argtypes": [MASK, MASK, "Opt[Obj]", "Opt[Obj]"], "ret": "Bool"}},
+         props=["C18"]),
+]
+
 SPECS += [
     dict(lean="Info_accepts", path="data/tools/info.py", qual="Info.accepts", group="Info",
          fields={"grid": "Opt[Obj]", "mask": MASK, "units": "Opt[Obj]"},
